@@ -101,4 +101,12 @@ def HookRun.step (r : HookRun) : HookEvent → HookRun
     | [] => r
     | h :: rest => ⟨r.g.exit h, rest⟩
 
+/-! ### `disable_extensions` (library/ops.py): a global switch, set to False on entry and to True in the
+`finally` block — not to its previous value -/
+
+/-- the switch after a sequence of events (`true` = a context is entered, `false` = the innermost open
+context is left, normally or through an exception), with the number of contexts still open -/
+def extSwitch (events : List Bool) (enabled : Bool := true) (depth : Nat := 0) : Bool × Nat :=
+  events.foldl (fun (st : Bool × Nat) e => if e then (false, st.2 + 1) else (true, st.2 - 1)) (enabled, depth)
+
 end Quanto
